@@ -535,7 +535,7 @@ def run(ctx):
                                         "output": out_c[-3000:]}, no_input=True)
         return
     ctx.cov["rule"] = ("(a) site-history programs: shared get/set/invoke/super sites reached by random histories over 2-6 classes (field, method, field "
-                       "shadowing a method, neither, inherited, non-instances) plus classes created and dropped in a loop; (a') write-expression "
+                       "shadowing a method — also with a different callable per instance —, neither, inherited, non-instances) plus classes created and dropped in a loop; (a') write-expression "
                        "histories: long-lived instances of 2-5 classes (field subsets in different orders, inheritance) sent through shared write sites "
                        "of every syntactic form whose value is used (returned, lambda body, compound, inside arithmetic, chained, call argument, local "
                        "initialiser, list element, self-writes in methods, top-level loops), the value of every write expression and every field printed; "
